@@ -58,7 +58,7 @@ class Contract:
     @property
     def key(self):
         if self.opts.get("block"):
-            return "%s::%s@%s" % (self.file, self.func, self.opts["block"])
+            return "%s::%s@%s" % (self.file, self.func, self.opts["block"] if isinstance(self.opts["block"], str) else " .. ".join(self.opts["block"]))
         return "%s::%s" % (self.file, self.func)
 
 
